@@ -160,6 +160,78 @@ impl Model for IterModel {
     }
 }
 
+// ---------------------------------------------------------------------------------------------
+// Operators that `KindSet` does not have today (complement, difference, symmetric difference) are
+// *probed at compile time*: if a later version of the library implements `!`, `-` or `^` for
+// sets, the calls below resolve to those impls (autoref specialisation: the impl on `Probe<T>`
+// is preferred when its bound holds, the blanket impl on `&Probe<T>` otherwise) and every set
+// they return has to be a *valid* set - what `len`, `is_empty`, `==` and the renderings say
+// about it must agree with its own members. Nothing is assumed about what the operators mean.
+struct Probe<T>(T);
+
+trait ViaNot {
+    fn via_not(&self) -> Option<KindSet>;
+}
+impl<T: Copy + std::ops::Not<Output = KindSet>> ViaNot for Probe<T> {
+    fn via_not(&self) -> Option<KindSet> {
+        Some(!self.0)
+    }
+}
+trait ViaNotFallback {
+    fn via_not(&self) -> Option<KindSet>;
+}
+impl<T> ViaNotFallback for &Probe<T> {
+    fn via_not(&self) -> Option<KindSet> {
+        None
+    }
+}
+
+macro_rules! probe_binary {
+    ($spec:ident, $fallback:ident, $method:ident, $tr:ident, $op:tt) => {
+        trait $spec<R> {
+            fn $method(&self, r: R) -> Option<KindSet>;
+        }
+        impl<T: Copy + std::ops::$tr<R, Output = KindSet>, R> $spec<R> for Probe<T> {
+            fn $method(&self, r: R) -> Option<KindSet> {
+                Some(self.0 $op r)
+            }
+        }
+        trait $fallback<R> {
+            fn $method(&self, r: R) -> Option<KindSet>;
+        }
+        impl<T, R> $fallback<R> for &Probe<T> {
+            fn $method(&self, _r: R) -> Option<KindSet> {
+                None
+            }
+        }
+    };
+}
+probe_binary!(ViaSub, ViaSubFallback, via_sub, Sub, -);
+probe_binary!(ViaXor, ViaXorFallback, via_xor, BitXor, ^);
+
+/// What the observers say about `s` agrees with its own members.
+fn valid_set(s: KindSet) -> Result<(), String> {
+    let mut it = s.iter();
+    let mut m: Vec<Kind> = Vec::new();
+    while let Some(k) = it.next() {
+        m.push(k);
+        if m.len() > 8 {
+            return Err("its iteration does not end".into());
+        }
+    }
+    let rebuilt = m.iter().fold(KindSet::none(), |a, k| a | *k);
+    if s.len() != m.len() || s.is_empty() != m.is_empty() {
+        return Err(format!("len() = {}, is_empty() = {}, but it iterates {m:?}", s.len(), s.is_empty()));
+    }
+    if s != rebuilt || rebuilt != s {
+        return Err(format!("it iterates {m:?} but is != the set of those kinds"));
+    }
+    if s.to_string() != rebuilt.to_string() || s.as_disjunction().to_string() != rebuilt.as_disjunction().to_string() || s.as_conjunction().to_string() != rebuilt.as_conjunction().to_string() {
+        return Err(format!("it iterates {m:?} but renders as {:?} / {:?}, the set of those kinds as {:?} / {:?}", s.as_disjunction().to_string(), s.as_conjunction().to_string(), rebuilt.as_disjunction().to_string(), rebuilt.as_conjunction().to_string()));
+    }
+    Ok(())
+}
+
 fn main() {
     let args = Args::parse();
     explore::quiet_panics();
@@ -438,6 +510,64 @@ fn main() {
     if let Err(p) = domain {
         let msg = p.downcast_ref::<String>().cloned().or_else(|| p.downcast_ref::<&str>().map(|s| s.to_string())).unwrap_or_default();
         t.violation("", format!("the library panicked during the enumeration of the 64 sets: {msg}"), json!({"kind": "panic"}));
+    }
+    // --- operators the type may grow: whatever they return is a valid set
+    {
+        let mut probed = 0usize;
+        let mut found: Vec<&str> = Vec::new();
+        let r = std::panic::catch_unwind(std::panic::AssertUnwindSafe(|| {
+            let mut bad: Vec<(String, explore::serde_json::Value)> = Vec::new();
+            for a in 0u8..64 {
+                let sa = build1(a);
+                if let Some(r) = (&Probe(sa)).via_not() {
+                    probed += 1;
+                    if !found.contains(&"!set") {
+                        found.push("!set");
+                    }
+                    if let Err(e) = valid_set(r) {
+                        bad.push((format!("!{a:06b} is not a valid set: {e}"), json!({"kind": "probed-operator", "op": "!", "a": a})));
+                    }
+                }
+                for b in 0u8..64 {
+                    let sb = build1(b);
+                    for (name, r) in [("set - set", (&Probe(sa)).via_sub(sb)), ("set ^ set", (&Probe(sa)).via_xor(sb))] {
+                        if let Some(r) = r {
+                            probed += 1;
+                            if !found.contains(&name) {
+                                found.push(name);
+                            }
+                            if let Err(e) = valid_set(r) {
+                                bad.push((format!("{name} on {a:06b}, {b:06b} is not a valid set: {e}"), json!({"kind": "probed-operator", "op": name, "a": a, "b": b})));
+                            }
+                        }
+                    }
+                }
+                for k in KINDS {
+                    for (name, r) in [("set - kind", (&Probe(sa)).via_sub(k)), ("set ^ kind", (&Probe(sa)).via_xor(k))] {
+                        if let Some(r) = r {
+                            probed += 1;
+                            if !found.contains(&name) {
+                                found.push(name);
+                            }
+                            if let Err(e) = valid_set(r) {
+                                bad.push((format!("{name} on {a:06b}, {k:?} is not a valid set: {e}"), json!({"kind": "probed-operator", "op": name, "a": a})));
+                            }
+                        }
+                    }
+                }
+            }
+            bad
+        }));
+        match r {
+            Ok(bad) => {
+                for (what, case) in bad {
+                    t.violation("", what, case);
+                }
+            }
+            Err(_) => t.violation("", "an operator probed on KindSet panicked".to_string(), json!({"kind": "probed-operator"})),
+        }
+        t.evals += probed as u64;
+        rep.bounds["probed_operators"] = json!({"probed_for": ["!set", "set - set", "set - kind", "set ^ set", "set ^ kind"], "implemented_by_the_library": found, "results_checked": probed});
     }
     rep.absorb(t);
 
